@@ -394,9 +394,14 @@ def programs_nd(draw, tier="quick"):
     wk = draw(st.sampled_from(["none", "int", "dyadic"]))
     nan_ok = draw(st.booleans())
 
+    inf_ok = draw(st.integers(0, 3)) == 0  # infinite coordinates lie outside every bin (rows with +inf and -inf are no NaN rows)
+
     def coord(ax):
         ps = ax["pairs"]
-        return st.one_of(st.sampled_from(gen.special_values(ps)), st.floats(ps[0][0], ps[-1][1], allow_nan=False))
+        base = st.one_of(st.sampled_from(gen.special_values(ps)), st.floats(ps[0][0], ps[-1][1], allow_nan=False))
+        if inf_ok:
+            return st.one_of(base, base, base, st.sampled_from([float("inf"), float("-inf")]))
+        return base
 
     row = st.tuples(*[coord(ax) for ax in axes]).map(list)
     nan_row = st.tuples(*[st.one_of(coord(ax), st.just(float("nan"))) for ax in axes]).map(list)
